@@ -1,0 +1,20 @@
+//go:build verif
+
+// Contract for hash_to_field of this field (RFC 9380 5.2), comment-only; installed by /verif/gcv gen-contracts.
+// ExpandMsgXmd is used through its own contract (field/hash); the big.Int conversions and the pool are opaque
+// calls. Clauses: totality (every slice, index and make operation is a discharged obligation), the number of
+// elements returned, and "an error is returned exactly for inadmissible parameters" (count*L > 255*32 or
+// len(DST) > 255), with L = 16 + ceil(bits/8) = 48 for this field.
+
+package fr
+
+//@ func Hash
+//@ layer opaque Element
+//@ option opaque-calls
+//@ requires 0 <= count && count <= 4294967296
+//@ loop 0
+//@ + invariant[index] 0 <= i && i <= count && len(res) == count && len(pseudoRandomBytes) == count * 48
+//@ ensures[length] isnil(result1) ==> len(result0) == count
+//@ ensures[accepted] isnil(result1) ==> count * 48 <= 8160 && len(dst) <= 255
+//@ ensures[refused] !isnil(result1) ==> count * 48 > 8160 || len(dst) > 255
+//@ end
